@@ -18,6 +18,7 @@ meta = {
         "applies_to_repo_head": True,
     },
     "checks_run": caught,
+    "detect_with": os.environ.get("DETECT_WITH", prop),
     "how_to_rerun": "git -C /repo apply /verif/seeded/%s/patch.diff && (cd /verif && ./check %s); git -C /repo checkout -- ." % (sid, prop),
 }
 json.dump(meta, open(os.path.join(dst, "meta.json"), "w"), indent=1)
